@@ -29,7 +29,12 @@ static inline cstring *cstring__lit(const char *p) { g_lit.len = 5; g_lit.id = _
 #define PUSH_CAPTURE(P, N, v)
 #endif
 /* SEQ_INV_<N>(p): representation invariant of every stored element (default: none); assumed for elements read, asserted for elements stored */
-#define DECL_SEQ_(P, N, T) struct P##N { unsigned long n; unsigned long wi; T wv; }; \
+#ifdef SEQ_WITH_ID   /* bt.h: sequences carry an abstract content identity (equal id <=> same length and same elements), used by vector == and data() */
+#define SEQ_ID_FIELD unsigned long id;
+#else
+#define SEQ_ID_FIELD
+#endif
+#define DECL_SEQ_(P, N, T) struct P##N { unsigned long n; unsigned long wi; T wv; SEQ_ID_FIELD }; \
   T P##N##__cur; /* scratch: the arbitrary element last handed out (a separate object, so element pointers have one target each) */ \
   static inline unsigned long P##N##__size(struct P##N *s) { return s->n; } \
   static inline T *P##N##__at(struct P##N *s, unsigned long i) { \
